@@ -146,6 +146,30 @@ def _gc(keep, n=6):
             shutil.rmtree(d, ignore_errors=True)
 
 
+def norm_path(p):
+    """Strip `::<...>` generic-argument segments from a def path (balanced)."""
+    out = []
+    i = 0
+    n = len(p)
+    while i < n:
+        if p.startswith("::<", i):
+            depth = 0
+            j = i + 2
+            while j < n:
+                if p[j] == "<":
+                    depth += 1
+                elif p[j] == ">":
+                    depth -= 1
+                    if depth == 0:
+                        break
+                j += 1
+            i = j + 1
+            continue
+        out.append(p[i])
+        i += 1
+    return "".join(out)
+
+
 class Crate:
     def __init__(self, path):
         with open(path) as fh:
@@ -170,6 +194,17 @@ class Crate:
                     "fact floors not met for %s: fns=%d adts=%d impls=%d (floors %s)"
                     % (self.name, len(self.fn_list), len(self.adt_list), len(self.impls), fl)
                 )
+
+    def fn(self, path):
+        """Function by def path; tolerant of inserted generic segments (`Foo::<'a>::bar`)."""
+        f = self.fns.get(path)
+        if f is not None:
+            return f
+        if not hasattr(self, "_norm"):
+            self._norm = {}
+            for p, v in self.fns.items():
+                self._norm.setdefault(norm_path(p), v)
+        return self._norm.get(norm_path(path))
 
     # ---- type helpers -------------------------------------------------
     def ty(self, i):
